@@ -27,7 +27,7 @@ var cbDims = []dim{
 	{"record", []string{"done", "pending", "absent"}},
 	{"binding", []string{"post", "redirect", "artifact", "empty"}},
 	{"acs", []string{"plain", "with-query", "empty", "special", "with-fragment"}},
-	{"relay", []string{"rs-1", "", "meta"}},
+	{"relay", []string{"rs-1", "", "meta", "long"}},
 	{"reqid", []string{"plain", "meta"}},
 	{"user", []string{"full", "minimal", "custom", "hostile", "missing"}},
 	{"entity", []string{"ok", "fail"}},
@@ -123,6 +123,8 @@ func runCb(c Case) *CbRun {
 		rec.Relay = "rs-1"
 	case "meta":
 		rec.Relay = metaString
+	case "long":
+		rec.Relay = "rs-long-" + strings.Repeat("0123456789abcdef", 440) // ~7 kB: the redirect Location exceeds 8000 bytes
 	}
 	if c["reqid"] == "meta" {
 		rec.ReqID = "id&<\"'> 1"
